@@ -28,10 +28,13 @@ type Stats struct {
 	Probes     map[string]int64 `json:"probes"`
 	Nontrivial int64            `json:"nontrivial"`
 	Deadlines  int64            `json:"deadline_calls"`
+	States     map[string]int64 `json:"model_states"` // abstract model states reached: phase/#statements/#portals
 }
 
 // NewStats allocates the maps.
-func NewStats() *Stats { return &Stats{Faults: map[string]int64{}, Probes: map[string]int64{}} }
+func NewStats() *Stats {
+	return &Stats{Faults: map[string]int64{}, Probes: map[string]int64{}, States: map[string]int64{}}
+}
 
 // Merge adds o into s.
 func (s *Stats) Merge(o *Stats) {
@@ -45,6 +48,9 @@ func (s *Stats) Merge(o *Stats) {
 	}
 	for k, v := range o.Probes {
 		s.Probes[k] += v
+	}
+	for k, v := range o.States {
+		s.States[k] += v
 	}
 }
 
